@@ -46,6 +46,14 @@ WITNESS = {
             "time-zone normalisation of a dateTime in year 0001 steps into year 0000, which does not exist in XML Schema 1.0: "
             "the canonical form of 0001-01-01T05:00:00+14:00 is 0000-12-31T15:00:00Z, which is not in the lexical space "
             "(XSValue rejects it) -- XMLDateTime::normalize decrements the year without skipping 0"),
+    "F33": (["xsv double " + G.hx("-."), "pe double " + G.hx("+."), "xsv float " + G.hx("-.")], ["1", "valid", "1"], "f33",
+            "xs:double / xs:float accept '+.' and '-.' (a sign followed by a lone decimal point): "
+            "XMLAbstractDoubleFloat::normalizeZero rewrites every sign? [0.]* string with at most one '.' to a zero without "
+            "requiring a digit"),
+    "F34": (["cmp double %s %s" % (G.hx("1"), G.hx("NaN"))], ["-2"], "f34",
+            "compare on xs:double with NaN as the right operand and a finite left operand returns -2 "
+            "(XMLAbstractDoubleFloat::compareValues computes (-1) * compareSpecial = -1 * INDETERMINATE), a value outside "
+            "{-1, 0, 1, INDETERMINATE = 2}; the pair is incomparable"),
     "F12": (["xsv base64Binary " + G.hx("\u0141AAA"), "pe base64Binary " + G.hx("\u0141AAA"),
              "xsv base64Binary " + G.hx("AAAA\u0100!!")], ["1", "valid", "1"], "f12",
             "base64Binary narrows UTF-16 code units to bytes: a character >= U+0100 whose low byte is a base64 letter is "
